@@ -34,6 +34,8 @@ type Node struct {
 	Out   chan dkg.SharingOutput
 	Outs  []dkg.SharingOutput
 	Down  bool
+	// Dir is the folder of the node's DKG database
+	Dir string
 	// Offset is this node's clock skew (seen by its code through package time)
 	Offset time.Duration
 	rm     func()
@@ -91,7 +93,7 @@ func (n *Net) AddNode(kp *key.Pair) (*Node, error) {
 		return nil, err
 	}
 	p, _ := util.PublicKeyAsParticipant(kp.Public)
-	nd := &Node{Idx: len(n.Nodes), Pair: kp, Part: p, Store: st, rm: rm}
+	nd := &Node{Idx: len(n.Nodes), Pair: kp, Part: p, Store: st, rm: rm, Dir: dir}
 	fo := util.NewFanOutChan[dkg.SharingOutput]()
 	nd.Out = fo.Listen()
 	nd.Proc = dkg.NewDKGProcess(st, ident{kp}, fo, &client{n: n, self: nd}, nil, n.Cfg, fix.Logger())
@@ -109,6 +111,11 @@ func (n *Net) AddNode(kp *key.Pair) (*Node, error) {
 		}
 	})
 	return nd, nil
+}
+
+// Client returns a DKG client of this network that belongs to no node (its gossip to unknown addresses is swallowed).
+func (n *Net) Client() dnetpkg.DKGClient {
+	return &client{n: n, self: &Node{Part: &pdkg.Participant{Address: "harness"}}}
 }
 
 // Close releases stores (after the run).
